@@ -340,7 +340,23 @@ def h_component(focus: str, ctx: int, n: int, cls: str, s: str) -> bool:
         cond = c if cond is None else (cond & c)
     if cond is not None:
         assume(cond)
-    return _roundtrip(_build(focus, ctx, s))
+    return _roomy(_roundtrip, _build(focus, ctx, s))
+
+
+def _make_roomy(nlocals: int = 8300):
+    """CPython 3.12 keeps interpreter frames in 16 KiB 'data stack chunks' that are mmap'ed when a call does
+    not fit and munmap'ed as soon as they are empty: a loop that calls a function right at a chunk boundary
+    pays one mmap+munmap per call (measured here: 3x wall time, 70% system time, depending on the stack
+    depth at which the worker happens to run).  A frame larger than a chunk makes CPython allocate one big
+    chunk (next power of two) and everything called from it runs in the free remainder (~60 KiB): no chunk
+    boundary inside the symbolic regex recursion.  Pure performance device, no semantic effect."""
+    names = ",".join("v%d" % i for i in range(nlocals))
+    ns = {}
+    exec("def roomy(fn, arg):\n    %s = [None] * %d\n    return fn(arg)\n" % (names, nlocals), ns)
+    return ns["roomy"]
+
+
+_roomy = _make_roomy()
 
 
 # validation of the engine shims at every run: a symbolic str pinned to one value by an assumption still
@@ -451,7 +467,7 @@ META = {
         "quick": {"symbolic component": "str of length 0..1 in 6 contexts, length 2 in 3 contexts (host 1..2 in all), 6 positions",
                   "table": "strings of length <= 2 over %r, None, '' in username/password/database/query key/query value; "
                            "2-tuples; two keys; %d hosts; ports %r; 6 contexts" % ("".join(ALPHABET[:15]), len(HOSTS), PORTS)},
-        "thorough": {"symbolic component": "str of length 0..3 (host 1..3)", "table": "as quick plus 3-tuples of query values"},
+        "thorough": {"symbolic component": "str of length 0..2 in all 6 contexts, length 3 for username/password/database in 2 contexts (host 1..3 in all)", "table": "as quick plus 3-tuples of query values"},
     },
     "outside": ["host names that are not syntactically valid (empty string, characters outside letters/digits/dot/hyphen; IPv6 literals only from a table)",
                 "a password given without a user name (RFC 1738 userinfo has no such form; render_as_string drops it)",
@@ -476,6 +492,8 @@ def harnesses(tier: str) -> List[Harness]:
             for n in range(1 if f == "host" else 0, nmax + 1):
                 if q and n == 2 and f != "host" and c not in (1, 2, 3):
                     continue  # quick: length 2 in three of the six contexts
+                if n == 3 and f != "host" and (c not in (1, 2) or f in ("qtuple", "qvalue")):
+                    continue  # thorough: length 3 in two contexts
                 for cv in ([("host",) * n] if f == "host" else itertools.product(CLASSES, repeat=n)):
                     sl.append(dict(focus=f, ctx=c, n=n, cls=",".join(cv)))
     hs.append(Harness("component", h_component, sl, budget_s=90 if q else 800, per_path_timeout=30))
